@@ -115,8 +115,16 @@ func (a *AST) computeFollows(n Node) {
 	switch v := n.(type) {
 	case *Concat:
 		for i := 0; i < len(v.Exprs)-1; i++ {
-			for _, p := range v.Exprs[i].lastPos() {
-				a.follows[p] = append(a.follows[p], v.Exprs[i+1].firstPos()...)
+			// The positions following n1 are the first positions of n2 and,
+			// as long as the children in between are nullable, of the children after n2 as well.
+			for j := i + 1; j < len(v.Exprs); j++ {
+				for _, p := range v.Exprs[i].lastPos() {
+					a.follows[p] = a.follows[p].Union(v.Exprs[j].firstPos())
+				}
+
+				if !v.Exprs[j].nullable() {
+					break
+				}
 			}
 		}
 
@@ -229,8 +237,9 @@ func (n *Concat) compute() {
 		return
 	}
 
+	// A concatenation is nullable if and only if all of its children are nullable (an empty concatenation is ε).
 	n.comp = &computed{
-		nullable: false,
+		nullable: true,
 		firstPos: Poses{},
 		lastPos:  Poses{},
 	}
